@@ -52,6 +52,14 @@ CLAIMED = {
    text="Per-function clauses on the real compiler: an export statement in a module compiler always emits IMMUT; RET 1 (postcondition of Compile on the emitted bytes), a forked module compiler is a fresh compiler with the given symbol table, the same module getter and file-import setting, and symbol-table Fork/Parent link tables as specified; fields that link compilers and tables are proved write-once.",
    note="compileModule (runs the parser, uses recover) and the loop statements have assumed contracts; import-graph termination and cycle exactness are not decided.",
    ref="DESIGN.md §4 C13"),
+ "C15": dict(
+   text="Data structure against an abstract view, proved per API function on the real code: FromInterface / ToInterface against the docs/interoperability.md table for every scalar, bytes, time and []Object; Compiled.Set/Get/IsDefined read and write exactly globals[globalIndexes[name]] (undeclared names rejected / read as undefined, every other global unchanged); Script.Add/Remove update exactly one entry of the variable table; the typed accessors of Variable equal the conversion contracts.",
+   note="The induction over API call sequences is a meta-argument over these per-call contracts; Script.Compile / Run / Clone / GetAll and nested map / slice conversion clauses are not covered; mutex operations are no-ops in the model.",
+   ref="DESIGN.md §4 C15"),
+ "C20": dict(
+   text="Precedence clause only: token.Token.Precedence is proved equal, for every token value, to the table in docs/tutorial.md (spec/30_syntax.smt2), with the five-level structure as a lemma.",
+   note="Semicolon insertion, precedence climbing in the parser, literal values and the print/parse round trip are not covered.",
+   ref="DESIGN.md §4 C20"),
 }
 for v in CLAIMED.values():
     v["technique"] = TECH
